@@ -518,10 +518,101 @@ func (x *hist) settleOffline(who string, exp []ref.Expect) bool {
 	return x.settle(map[string][]ref.Expect{who: exp})
 }
 
+// stalledVictim: a client that subscribes to its own will topic stops
+// acknowledging; its window and its session queue fill up (queue size 3,
+// window 2); its connection is lost. The retained will is a retained message
+// like any other: a later subscriber gets it, whatever happened to the copy
+// meant for the dying client itself. The live copies stay inside the documented
+// overflow behaviour and are not judged.
+func stalledVictim(r *h.Run, idx int) {
+	if r.TooMany() {
+		return
+	}
+	r.Journal("C11 stalled victim #%d", idx)
+	b := bh.NewBroker()
+	b.Mon.Inner.SessionQueueSize = 3
+	b.Mon.Inner.ClientInflightMessages = 2
+	defer b.Shutdown()
+	fail := func(key, msg string) {
+		r.Violation("stalled/"+key, fmt.Sprintf("stalled victim #%d: %s", idx, msg), map[string]interface{}{"detail": msg, "event_log_tail": b.Log.Dump(150)})
+	}
+	wq := packet.QOS(idx % 3)
+	clean := idx%2 == 0
+	willPayload := fmt.Sprintf("will-%d", idx)
+	v, _, vca, err := b.Connect("victim", bh.ConnectOpts{ID: "c11-stalled", Clean: clean, Will: &packet.Message{Topic: "w/v", Payload: []byte(willPayload), QOS: wq, Retain: true}}, nil)
+	if err != nil || vca == nil {
+		r.Inconclusive("stalled victim could not connect")
+		return
+	}
+	_ = v.Send(&packet.Subscribe{ID: 1, Subscriptions: []packet.Subscription{{Topic: "#", QOS: 1}}})
+	if _, err := bh.AwaitAck(v, packet.SUBACK, 1); err != nil {
+		r.Inconclusive("stalled victim SUBACK")
+		return
+	}
+	pub, _, pca, err := b.Connect("pub", bh.ConnectOpts{ID: "c11-spub", Clean: true, AutoAck: true}, nil)
+	if err != nil || pca == nil {
+		r.Inconclusive("publisher")
+		return
+	}
+	// window (2) + queue (3) = 5 messages are absorbed, the sixth blocks the
+	// publisher's processor until the victim is closing
+	for i := 1; i <= 6; i++ {
+		_ = pub.Send(&packet.Publish{ID: packet.ID(i), Message: packet.Message{Topic: "x/y", QOS: 1, Payload: []byte(fmt.Sprintf("fill-%d", i))}})
+	}
+	if _, err := bh.AwaitAck(pub, packet.PUBACK, 5); err != nil {
+		r.Inconclusive("publisher PUBACK 5")
+		return
+	}
+	time.Sleep(2 * time.Millisecond) // shaping: let the sixth publish reach the full queue
+	v.Close()
+	if !b.WaitClosed("victim", bh.Watchdog) {
+		fail("victim-not-closed", "the stalled victim's client never closed")
+		return
+	}
+	if bh.Ping(pub) != nil {
+		r.Inconclusive("publisher ping after the victim died")
+		return
+	}
+	probe, _, qca, err := b.Connect("probe", bh.ConnectOpts{ID: "c11-sprobe", Clean: true, AutoAck: true}, nil)
+	if err != nil || qca == nil {
+		r.Inconclusive("probe")
+		return
+	}
+	_ = probe.Send(&packet.Subscribe{ID: 1, Subscriptions: []packet.Subscription{{Topic: "w/#", QOS: 2}}})
+	if _, err := bh.AwaitAck(probe, packet.SUBACK, 1); err != nil {
+		r.Inconclusive("probe SUBACK")
+		return
+	}
+	// fence: replays travel through the subscriber's temporary queue; a marker
+	// published afterwards travels behind them
+	_ = pub.Send(&packet.Publish{Message: packet.Message{Topic: "w/marker", Payload: []byte("marker")}})
+	if _, err := probe.WaitFor(bh.Watchdog, func(g packet.Generic) bool {
+		pp, ok := g.(*packet.Publish)
+		return ok && pp.Message.Topic == "w/marker"
+	}); err != nil {
+		r.Inconclusive("probe marker")
+		return
+	}
+	n := 0
+	for _, g := range probe.All() {
+		if pp, ok := g.(*packet.Publish); ok && pp.Message.Topic == "w/v" {
+			n++
+			if string(pp.Message.Payload) != willPayload || !pp.Message.Retain || pp.Message.QOS != wq {
+				fail("will-altered", fmt.Sprintf("retained will replayed as %s", ref.Canon(pp)))
+			}
+		}
+	}
+	if n != 1 {
+		fail("retained-will-missing", fmt.Sprintf("a client whose own queue was full died; its retained will (qos %d) was replayed %d times to a later subscriber of w/#, expected once", wq, n))
+	}
+	r.Eval()
+	r.NonTrivial(fmt.Sprintf("stalled:%d:%t", wq, clean))
+}
+
 func TestCheck(t *testing.T) {
 	r := h.New("C11", "exploration")
 	fs := filterSet()
-	r.Rule(fmt.Sprintf("PRNG histories of 14-28 steps over 7 topics (incl. empty levels and a leading '/'): retained / plain / empty-retained publishes at QoS 0-2 by two publishers, retained and plain wills of victims whose connection is dropped, probe subscribers using every filter of the depth<=3 universe over {a,b,empty,+,#} (%d filters, cycled deterministically, 1-3 filters per SUBSCRIBE, repeated subscriptions), a live '#' observer, an offline persistent subscriber, and '#' checkpoints; after every step a marker fence and comparison of all received PUBLISH packets (topic, payload, retain flag, QoS cap, count) with the retained-map model. Concurrent part: a publisher streams 40-100 numbered retained QoS 0 messages to one topic under background load on the backend while 3-8 subscribers subscribe at PRNG moments; each must receive at most one replay, first, and then every later value without a gap. Non-trivial = histories with a subscription made while >= 2 topics are retained and at least one does not match; distinct by history", len(fs)))
+	r.Rule(fmt.Sprintf("PRNG histories of 14-28 steps over 7 topics (incl. empty levels and a leading '/'): retained / plain / empty-retained publishes at QoS 0-2 by two publishers, retained and plain wills of victims whose connection is dropped, probe subscribers using every filter of the depth<=3 universe over {a,b,empty,+,#} (%d filters, cycled deterministically, 1-3 filters per SUBSCRIBE, repeated subscriptions), a live '#' observer, an offline persistent subscriber, and '#' checkpoints; after every step a marker fence and comparison of all received PUBLISH packets (topic, payload, retain flag, QoS cap, count) with the retained-map model. Concurrent part: a publisher streams 40-100 numbered retained QoS 0 messages to one topic under background load on the backend while 3-8 subscribers subscribe at PRNG moments; each must receive at most one replay, first, and then every later value without a gap. Stalled-victim part: a client subscribed to its own retained will's topic stops acknowledging until its window (2) and queue (3) are full and loses its connection; a later subscriber must get the retained will. Non-trivial = histories with a subscription made while >= 2 topics are retained and at least one does not match; distinct by history", len(fs)))
 	r.Assume("retained replay for a SUBSCRIBE with k matching filters may arrive 1..k times (per-filter replay)")
 	r.Assume("QoS 0 publishes while a persistent subscriber is offline may be dropped")
 	n := r.Pick(120, 2500)
@@ -530,5 +621,8 @@ func TestCheck(t *testing.T) {
 	nc := r.Pick(150, 3000)
 	h.Parallel(nc, 8, func(i int) { concurrentRetained(r, i) })
 	r.Count("concurrent_retained_runs", int64(nc))
+	ns := r.Pick(12, 120)
+	h.Parallel(ns, 8, func(i int) { stalledVictim(r, i) })
+	r.Count("stalled_victim_runs", int64(ns))
 	h.Exit(r.Finish(20))
 }
